@@ -160,3 +160,85 @@ def node_sx(n, gi):
         return [0, gi.term_index(n.symbol), n.start_position, n.end_position]
     return [1, n.production.prod_id, n.start_position, n.end_position,
             [node_sx(c, gi) for c in n.children]]
+
+
+# ------------------------------------------------------------------ table dump
+def model_grammar(gi, start_nt=None):
+    """productions in the model's format; production 0 is S' -> start"""
+    prods = gi.productions()
+    if start_nt is None:
+        # productions[0].rhs is [start, STOP] outside create_table
+        start_nt = prods[0][1][0][1]
+    prods[0] = [prods[0][0], [[1, start_nt]]]
+    return prods
+
+
+def dump_action(a):
+    from parglare.tables import ACCEPT, REDUCE, SHIFT
+    if a.action == SHIFT:
+        return [0, a.state.state_id]
+    if a.action == REDUCE:
+        return [1, a.prod.prod_id]
+    assert a.action == ACCEPT
+    return [2]
+
+
+def dump_table(table, gi):
+    states = []
+    for i, s in enumerate(table.states):
+        assert s.state_id == i, "state ids are not positional"
+        acts = [[gi.term_index(t), [dump_action(a) for a in al]] for t, al in s.actions.items()]
+        gotos = [[gi.sym(nt)[1], st.state_id] for nt, st in s.gotos.items()]
+        flags = [1 if f else 0 for f in getattr(s, "finish_flags", [False] * len(acts))]
+        items = [[it.production.prod_id, it.position] for it in (s.items or [])]
+        states.append([gi.sym(s.symbol), acts, gotos, flags, items])
+    return states
+
+
+def dump_terms(gi):
+    return [[t.prior, 1 if t.prefer else 0] for t in gi.terms]
+
+
+def stop_id(gi):
+    from parglare.grammar import STOP
+    return gi.term_index(STOP)
+
+
+def rx_matrix(gi, w):
+    """terminal x position -> match length (0 = none), using the impl's own
+    recognizer objects"""
+    from parglare.grammar import EMPTY, STOP
+    rows = []
+    for t in gi.terms:
+        row = []
+        if t is STOP or t is EMPTY or t.name in ("STOP", "EMPTY"):
+            rows.append([0] * len(w))
+            continue
+        for p in range(len(w)):
+            try:
+                r = t.recognizer(w, p)
+            except TypeError:
+                r = None
+            if type(r) is tuple:
+                r = r[0]
+            row.append(len(r) if r else 0)
+        rows.append(row)
+    return rows
+
+
+def chars(w):
+    return [ord(c) for c in w] if isinstance(w, str) else [0] * len(w)
+
+
+def lr_tree_trace(node):
+    """leaves with their layout_content, in order: (sym name, start, end, layout)"""
+    out = []
+
+    def go(n):
+        if n.is_term():
+            out.append((n.start_position, n.end_position, n.layout_content))
+        else:
+            for c in n.children:
+                go(c)
+    go(node)
+    return out
